@@ -219,8 +219,10 @@ impl Gen<'_> {
         match self.rng.below(20) {
             0 => None,
             1 | 2 => Some(self.illtyped("int")),
-            3..=6 => Some(self.edge_int()),
-            7 => Some(self.float()),
+            3..=5 => Some(self.edge_int()),
+            // the values next to the usual guards (`< 0`, `< 1`, `<= 0`)
+            6..=8 => Some(JV::int(*self.rng.pick(&[0i128, 1, -1, 0, -1, 2]))),
+            9 => Some(self.float()),
             _ => Some(valid),
         }
     }
@@ -240,7 +242,11 @@ impl Gen<'_> {
         }
         if self.rng.chance(1, 5) { self.text() } else { JV::s(self.pick(EXPRS)) }
     }
-    fn memref(&mut self) -> JV { if self.rng.chance(1, 4) { JV::Ph("pm") } else if self.rng.chance(1, 8) { self.text() } else { JV::s(self.pick(MEMREFS)) } }
+    fn memref(&mut self) -> JV {
+        // near misses of the accepted syntax are picked often
+        const NEAR: &[&str] = &["0X10", "0x+10", " 0x10 ", "+16", "0x", "0xg", "-1", "0x8000000000000000", "0x7fffffffffffffff", "0x10 0", "0x1_0", "16 "];
+        match self.rng.below(12) { 0..=2 => JV::Ph("pm"), 3..=5 => JV::s(self.pick(NEAR)), 6 => self.text(), _ => JV::s(self.pick(MEMREFS)) }
+    }
     fn unmapped_memref(&mut self) -> JV { JV::s(self.pick(&["0x10", "16", "0x0", "+32", " 0x40 ", "4095"])) }
     fn offset(&mut self) -> Option<JV> {
         match self.rng.below(12) { 0..=4 => None, 5 => Some(JV::int(0)), 6 => Some(JV::int(1)), 7 => Some(JV::int(-1)), 8 => Some(JV::int(-16)), 9 => Some(self.edge_int()), 10 => Some(self.illtyped("int")), _ => Some(JV::int(4096)) }
@@ -279,7 +285,13 @@ impl Gen<'_> {
             "initialize" => { put!("adapterID", self.str_field(JV::s("c08d"))); put!("linesStartAt1", Some(JV::Bool(true))); }
             "launch" => {
                 // a real program only where the session plan says so (`launch_valid`); here: programs that do not exist
-                put!("program", self.str_field(JV::s("/nonexistent/c08d/día/no-such-program")));
+                // (never a bare name that `which` could resolve to a program of this machine)
+                let p = match self.rng.below(10) {
+                    0 => None, 1 | 2 => Some(self.illtyped("str")),
+                    3 => Some(JV::s(self.pick(&["", "día", "日本/プログラム", "/nonexistent/😀", "./no-such-día"]))),
+                    _ => Some(JV::s("/nonexistent/c08d/día/no-such-program")),
+                };
+                put!("program", p);
                 put!("args", self.opt(1, 3, |g| JV::Arr(vec![g.text(), g.illtyped("str")])));
                 put!("sourceMap", self.opt(1, 3, |g| JV::obj(vec![("/src/día", g.text()), ("C:\\x", g.illtyped("str"))])));
             }
@@ -873,11 +885,17 @@ pub fn exec(req: &[String], out: &mut Out, dir: &Path) {
     let sessions = parse_sessions(req);
     let sdir = dir.join("sessions");
     std::fs::create_dir_all(&sdir).unwrap();
-    let par = std::env::var("C08D_PAR").ok().and_then(|s| s.parse().ok()).unwrap_or(4usize);
+    let par = std::env::var("C08D_PAR").ok().and_then(|s| s.parse().ok()).unwrap_or(6usize);
     let base = std::env::var("C08D_REQ_TIMEOUT").ok().and_then(|s| s.parse().ok()).unwrap_or(20u64);
     let t = Duration::from_secs(base * crate::live::load_factor());
+    // sessions that start a debugger take longest: they go first (the order of execution does not matter)
+    let mut all: Vec<usize> = (0..sessions.len()).collect();
+    let launches = |s: &Session| s.lines.iter().filter(|(_, m)| m.as_ref().is_some_and(|m| m.get("command") == Some(&JV::s("launch")))).count();
+    all.sort_by_key(|&i| std::cmp::Reverse(launches(&sessions[i])));
+    let by_order = run_workers(&sessions, &all, &sdir, par, t);
+    let mut results: Vec<(PathBuf, String)> = vec![(PathBuf::new(), String::new()); sessions.len()];
+    for (k, &i) in all.iter().enumerate() { results[i] = by_order[k].clone(); }
     let all: Vec<usize> = (0..sessions.len()).collect();
-    let mut results = run_workers(&sessions, &all, &sdir, par, t);
     // a session that hung is run ONCE more, alone, with twice the limit: only a hang that repeats is reported
     let again: Vec<usize> = all.iter().copied().filter(|&i| results[i].1 == "watchdog" || results[i].1 == "exit3").collect();
     if !again.is_empty() && std::env::var("VERIF_NO_RETRY").is_err() {
